@@ -23,12 +23,12 @@ prop("C08", pkg="c08",
           "counted in excluded_known). evaluations = library decode calls (probes). Non-trivial = prefix of length > 0, any count mutation, flip, insertion not at the very "
           "first boundary, trailing/missing/mismatch probe; distinct = FNV-64 of (type descriptor, protocol, probe group, input bytes).",
      quick=dict(shards=16, scale=1, timeout=900),
-     thorough=dict(shards=16, scale=8, timeout=3000),
+     thorough=dict(shards=16, scale=6, timeout=3000),
      vlimit_gb=16,
      fuzz=[("FuzzThriftDecode", 90)],
      technique="property-based testing (rapid) + exhaustive prefix/header-mutation enumeration per generated encoding, validity and metamorphic oracles, "
                "out-of-process supervision with address-space limit and stall watchdog; coverage-guided native go fuzzing (thorough tier) with the oracle inside the target",
-     level_text="Exploration: ~17 M decode calls per quick run (~135 M thorough): no panic or fatal fault; every proper prefix of a valid encoding gives errors.Is(err, io.ErrUnexpectedEOF) "
+     level_text="Exploration: ~15 M decode calls per quick run (~90 M thorough plus a 90 s native fuzzing campaign, ~1 M execs): no panic or fatal fault; every proper prefix of a valid encoding gives errors.Is(err, io.ErrUnexpectedEOF) "
                 "(io.EOF for empty input); negative / oversized counts give an error; TotalAlloc delta <= 64 MiB for inputs <= 4 KiB; undeclared fields of any type and "
                 "nesting leave the decoded value unchanged; trailing bytes, missing required fields (*MissingField) and strict-mode wire type changes (*TypeMismatch) are "
                 "reported, the latter two with errors.As and, for MissingField, the id of the missing field. A call on a <= 4 KiB input that has not returned after 20 s "
